@@ -22,10 +22,24 @@ import (
 	"verif/harness/store"
 )
 
+// boom panics with one of the shapes real crashes have: a string, an error value, a runtime error.
+func boom(kind int, where string) {
+	switch kind {
+	case 1:
+		panic(fmt.Errorf("verif: panic (error value) in %s", where))
+	case 2:
+		var m map[string]int
+		m[where] = 1 // runtime error: assignment to entry in nil map
+	}
+	panic("verif: panic in " + where)
+}
+
+var panicKinds = []string{"string", "error-value", "runtime-error"}
+
 var panicSites = []string{"decoder", "reifier", "chooser", "storage-read", "storage-write-open", "storage-commit"}
 
 // panicLinkSystem wraps a store's link system with panic injection in the decoder chooser / reifier.
-func panicLinkSystem(st *store.Store, site string, k int64, armed *int32, fired *int32, isVictim func(cid.Cid) bool) ipld.LinkSystem {
+func panicLinkSystem(st *store.Store, site string, k int64, pkind int, armed *int32, fired *int32, isVictim func(cid.Cid) bool) ipld.LinkSystem {
 	lsys := st.LinkSystem()
 	var n int64
 	switch site {
@@ -40,7 +54,7 @@ func panicLinkSystem(st *store.Store, site string, k int64, armed *int32, fired 
 			return func(na datamodel.NodeAssembler, r io.Reader) error {
 				if atomic.LoadInt32(armed) == 1 && victim && atomic.AddInt64(&n, 1) == k {
 					atomic.StoreInt32(fired, 1)
-					panic("verif: panic in decoder")
+					boom(pkind, "decoder")
 				}
 				return dec(na, r)
 			}, nil
@@ -56,7 +70,7 @@ func panicLinkSystem(st *store.Store, site string, k int64, armed *int32, fired 
 			}
 			if atomic.LoadInt32(armed) == 1 && victim && atomic.AddInt64(&n, 1) == k {
 				atomic.StoreInt32(fired, 1)
-				panic("verif: panic in node reifier")
+				boom(pkind, "node reifier")
 			}
 			return nd, nil
 		}
@@ -92,8 +106,12 @@ func TestC22(t *testing.T) {
 			continue
 		}
 		k := int64(1 + r.Intn(len(fullV.Loads)))
+		if r.Intn(3) == 0 {
+			k = 1 // the root: its chooser / load runs before the traversal proper
+		}
+		pkind := r.Intn(len(panicKinds))
 		// write the case down before running it: a dead child identifies its killer
-		rep.Journal("case %d site=%s side=%s k=%d victim_loads=%d", ci, site, side, k, len(fullV.Loads))
+		rep.Journal("case %d site=%s side=%s k=%d victim_loads=%d panic=%s", ci, site, side, k, len(fullV.Loads), panicKinds[pkind])
 		rep.Flush(false)
 
 		w := NewWorld()
@@ -119,7 +137,7 @@ func TestC22(t *testing.T) {
 			target.BeforeRead = func(n int, lnk cid.Cid, path string) error {
 				if atomic.LoadInt32(&armed) == 1 && isVictim(lnk) && atomic.AddInt64(&nv, 1) == k {
 					atomic.StoreInt32(&fired, 1)
-					panic("verif: panic in StorageReadOpener")
+					boom(pkind, "StorageReadOpener")
 				}
 				return nil
 			}
@@ -127,7 +145,7 @@ func TestC22(t *testing.T) {
 			target.BeforeWriteOpen = func(n int) error {
 				if atomic.LoadInt32(&armed) == 1 && atomic.AddInt64(&nv, 1) == k {
 					atomic.StoreInt32(&fired, 1)
-					panic("verif: panic in StorageWriteOpener")
+					boom(pkind, "StorageWriteOpener")
 				}
 				return nil
 			}
@@ -135,7 +153,7 @@ func TestC22(t *testing.T) {
 			target.BeforeCommit = func(n int, lnk cid.Cid) error {
 				if atomic.LoadInt32(&armed) == 1 && isVictim(lnk) && atomic.AddInt64(&nv, 1) == k {
 					atomic.StoreInt32(&fired, 1)
-					panic("verif: panic in block write committer")
+					boom(pkind, "block write committer")
 				}
 				return nil
 			}
@@ -143,13 +161,13 @@ func TestC22(t *testing.T) {
 		// nodes with (possibly) wrapped link systems: the decoder / reifier panics only for victim blocks via k counting on the chosen side
 		A := w.addGSWithLinkSystem("A", sa, func(st *store.Store) ipld.LinkSystem {
 			if side == "requestor" && (site == "decoder" || site == "reifier") {
-				return panicLinkSystem(st, site, k, &armed, &fired, isVictim)
+				return panicLinkSystem(st, site, k, pkind, &armed, &fired, isVictim)
 			}
 			return st.LinkSystem()
 		})
 		B := w.addGSWithLinkSystem("B", sb, func(st *store.Store) ipld.LinkSystem {
 			if side == "responder" && (site == "decoder" || site == "reifier") {
-				return panicLinkSystem(st, site, k, &armed, &fired, isVictim)
+				return panicLinkSystem(st, site, k, pkind, &armed, &fired, isVictim)
 			}
 			return st.LinkSystem()
 		})
@@ -159,7 +177,7 @@ func TestC22(t *testing.T) {
 			ch := func(lnk datamodel.Link, lc linking.LinkContext) (datamodel.NodePrototype, error) {
 				if atomic.AddInt64(&nc, 1) == k {
 					atomic.StoreInt32(&fired, 1)
-					panic("verif: panic in prototype chooser")
+					boom(pkind, "prototype chooser")
 				}
 				return refChooser(lnk, lc)
 			}
@@ -212,7 +230,7 @@ func TestC22(t *testing.T) {
 			for _, e := range errs {
 				es = append(es, fmt.Sprintf("%T: %.160v", e.Err, e.Err))
 			}
-			return map[string]any{"case": ci, "site": site, "side": side, "k": k, "victim_loads": len(fullV.Loads), "overlap_with_bystander": overlap, "panic_fired": atomic.LoadInt32(&fired) == 1,
+			return map[string]any{"case": ci, "site": site, "side": side, "k": k, "victim_loads": len(fullV.Loads), "overlap_with_bystander": overlap, "panic_value": panicKinds[pkind], "panic_fired": atomic.LoadInt32(&fired) == 1,
 				"victim_errors": es, "requestor_panic_callbacks": A.Panics(), "responder_panic_callbacks": B.Panics(), "event_log_tail": w.Log.Tail(50)}
 		}
 		switch {
